@@ -61,7 +61,8 @@ def streams(rng, tier):
         out.append(Case("laws:" + setting, "law.sp.pair", [vtxt, t1, t2, setting, rng.choice(KINDS)], kind="law"))
         if rng.random() < 0.3:
             op = rng.choice(gen_spec.OPS[:7])
-            out.append(Case("contains", "sp.query", [op + vtxt, rng.choice("NTF"), gen_spec.pad_ws(rng, gen.spell(rng, c2), 0.2), rng.choice("NNTF"), rng.choice("ca"),
+            W = gen_spec.WS_U
+            out.append(Case("contains", "sp.query", [rng.choice(W) + op + rng.choice(W) + vtxt + rng.choice(W), rng.choice("NTF"), gen_spec.pad_ws(rng, gen.spell(rng, c2), 0.2), rng.choice("NNTF"), rng.choice("ca"),
                                                      rng.choice(["contains", "in"]), rng.choice(KINDS)]))
     return out
 
